@@ -20,7 +20,7 @@ def T(*names):
 
 PROPS = {
  'C12': dict(
-    tasks=T('verus:divrem', 'kani:arkff', 'mirvc:specs_tower', 'search:specs_tower', 'mirvc:specs_lib', 'lsearch:all', 'ground:all'),
+    tasks=T('handover:limbs', 'verus:divrem', 'kani:arkff', 'mirvc:specs_tower', 'search:specs_tower', 'mirvc:specs_lib', 'lsearch:all', 'lsearch:release', 'ground:all'),
     trusted_base=[A['A2'], A['A7'], A['A9'], A['L2']],
     assumptions=[A['A2'], A['A6'], A['A7'], A['A9']],
     explanation='every function of fields/fq2.rs verified against Fq[u]/(u^2+2) from its rustc MIR with callees replaced by contracts'),
@@ -30,63 +30,63 @@ PROPS = {
     assumptions=[A['A2'], A['A6'], A['A7'], A['A9']],
     explanation='every function of fq4.rs / fq12.rs verified against F_q[w]/(w^12+2) on arbitrary elements; Frobenius maps against x^(q^k) with constants recomputed exactly; both final exponentiations by exponent contracts: result = x^e with e = (q^12-1)/r mod q^12-1'),
  'C11': dict(
-    tasks=T('mirvc:specs_tower', 'search:specs_tower', 'mirvc:specs_lib', 'mirvc:specs_loops', 'mirvc:specs_fexp', 'verus:divrem', 'verus:invr', 'pairsearch:all', 'ground:all'),
+    tasks=T('handover:limbs', 'mirvc:specs_tower', 'search:specs_tower', 'mirvc:specs_lib', 'mirvc:specs_loops', 'mirvc:specs_fexp', 'verus:divrem', 'verus:invr', 'pairsearch:all', 'ground:all'),
     trusted_base=[A['A2'], A['A7'], A['A9'], A['L2']],
     assumptions=[A['A2'], A['A6'], A['A7'], A['A9']],
     explanation='Gt::mul / inverse / one are the Fq12 operations (delegation + tower obligations); Gt::pow is the generic square-and-multiply loop with invariant res = g^prefix; == and to_slice are coordinate-wise; reduction of exponents mod r uses g^r = 1 (final exponent contract + A2)'),
  'C04': dict(
-    tasks=T('handover:limbs', 'handover:tower', 'mirvc:specs_groups', 'mirvc:specs_lib', 'gsearch:all', 'ground:all'),
+    tasks=T('handover:limbs', 'handover:tower', 'mirvc:specs_groups', 'mirvc:specs_lib', 'gsearch:all', 'gsearch:release', 'ground:all'),
     trusted_base=[A['A2'], A['A3'], A['A4'], A['A7'], A['A9'], 'hand-over: Base-field ring contracts (C06/C12)'],
     assumptions=[A['A3'], A['A4'], A['A6'], A['A7']],
     explanation='double, every branch of Add (4 representation combinations x generic/equal/opposite/identity), Neg, Sub, AddAssign verified generically over P::Base from rustc MIR against the affine chord-and-tangent law; valid_rep(out) proved as ideal membership modulo the curve equations'),
  'C15': dict(
-    tasks=T('handover:limbs', 'handover:tower', 'mirvc:specs_groups', 'mirvc:specs_lib', 'gsearch:all', 'ground:all'),
+    tasks=T('handover:limbs', 'handover:tower', 'mirvc:specs_groups', 'mirvc:specs_lib', 'gsearch:all', 'gsearch:release', 'ground:all'),
     trusted_base=[A['A2'], A['A4'], A['A7'], A['A9']],
     assumptions=[A['A4'], A['A6'], A['A7']],
     explanation='==, is_zero, to_affine, to_jacobian, zero verified over the affine view for identity / z=1 / general representatives and all relations'),
  'C09': dict(
-    tasks=T('handover:limbs', 'handover:tower', 'mirvc:specs_groups', 'mirvc:specs_lib', 'kani:dec_quick', 'gsearch:all', 'csearch:debug', 'ground:all'),
+    tasks=T('handover:limbs', 'handover:tower', 'mirvc:specs_groups', 'mirvc:specs_lib', 'kani:dec_quick', 'gsearch:all', 'gsearch:release', 'csearch:debug', 'csearch:release', 'ground:all'),
     trusted_base=[A['A3'], A['A4'], A['A7'], A['A9']],
     assumptions=[A['A3'], A['A4'], A['A7']],
     explanation='AffineG::new: Ok iff y^2 = x^3 + b and (check_order => [r-1]P + P = O), for both values of check_order'),
  'C06': dict(
-    tasks=(lambda tier: ['verus:divrem', 'verus:invr', 'kani:arkff', 'kani:limbs_linear', 'kani:field_linear', 'mirvc:specs_lib', 'mirvc:specs_loops', 'lsearch:all', 'ground:all'] if tier == 'quick' else ['verus:divrem', 'verus:invr', 'kani:arkff', 'kani:limbs_linear', 'kani:field_linear', 'mirvc:specs_lib', 'mirvc:specs_loops', 'lsearch:all', 'ground:all']),
+    tasks=(lambda tier: ['handover:limbs', 'verus:divrem', 'verus:invr', 'kani:arkff', 'kani:limbs_linear', 'kani:field_linear', 'mirvc:specs_lib', 'mirvc:specs_loops', 'lsearch:all', 'lsearch:release', 'ground:all'] if tier == 'quick' else ['handover:limbs', 'verus:divrem', 'verus:invr', 'kani:arkff', 'kani:limbs_linear', 'kani:field_linear', 'mirvc:specs_lib', 'mirvc:specs_loops', 'lsearch:all', 'lsearch:release', 'ground:all']),
     trusted_base=[A['A1'], A['A6'], A['A7']],
     assumptions=[A['A1'], A['A6'], A['A7']],
     explanation='Fq and Fr arithmetic proved on the extracted real text (Verus chains divrem / invr: mul, square, add, sub, neg, double, inverse, set_bit, conversions with postconditions on the Montgomery value), linear operations also by body-agnostic Kani harnesses; FieldElement::pow by its loop invariant; operator forms and lib.rs wrappers as delegation obligations'),
  'C13': dict(
-    tasks=(lambda tier: ['verus:divrem', 'verus:invr', 'kani:arkff', 'kani:dispatch', 'kani:bytes', 'kani:limbs_linear', 'mirvc:specs_lib', 'lsearch:all', 'ground:all'] if tier == 'quick' else ['verus:divrem', 'verus:invr', 'kani:arkff', 'kani:dispatch', 'kani:bytes', 'kani:limbs_linear', 'mirvc:specs_lib', 'lsearch:all', 'ground:all']),
+    tasks=(lambda tier: ['handover:limbs', 'verus:divrem', 'verus:invr', 'kani:arkff', 'kani:dispatch', 'kani:bytes', 'kani:limbs_linear', 'mirvc:specs_lib', 'lsearch:all', 'lsearch:release', 'ground:all'] if tier == 'quick' else ['handover:limbs', 'verus:divrem', 'verus:invr', 'kani:arkff', 'kani:dispatch', 'kani:bytes', 'kani:limbs_linear', 'mirvc:specs_lib', 'lsearch:all', 'lsearch:release', 'ground:all']),
     trusted_base=[A['A6'], A['A7'], A['A9']],
     assumptions=[A['A6'], A['A7'], A['A9']],
     explanation='length dispatch of from_slice / from_hash / to_big_endian and the byte<->limb conversions by Kani over all lengths and bytes; the reductions behind them (U512::divrem remainder, Fq/Fr::new, new_mul_factor, From<Fq> for U256, set_bit) by Verus on the extracted text; wrappers as delegation obligations; from_str by search only'),
  'C05': dict(
-    tasks=T('handover:tower', 'handover:groups', 'mirvc:specs_loops', 'mirvc:specs_lib', 'mirvc:specs_groups', 'verus:divrem', 'verus:invr', 'gsearch:all', 'lsearch:all', 'ground:all'),
+    tasks=T('handover:limbs', 'handover:tower', 'handover:groups', 'mirvc:specs_loops', 'mirvc:specs_lib', 'mirvc:specs_groups', 'verus:divrem', 'verus:invr', 'gsearch:all', 'gsearch:release', 'lsearch:all', 'lsearch:release', 'ground:all'),
     trusted_base=[A['A3'], A['A4'], A['A7'], A['A9'], 'hand-over (by statement, not machine-linked): U256::from(Fr) = canonical value and BitIterator::next = bit n-1 of it, both E1 obligations; SkipWhile over it yields the binary digits from the leading 1 (core iterator semantics, A9)'],
     assumptions=[A['A3'], A['A4'], A['A6'], A['A7']],
     explanation='double-and-add loop of Mul<Fr> for G<P> verified with the inductive invariant pt(res) = [prefix] pt(self) over the abstract group; wrappers k*P / P*k are delegation obligations; double/+= meet the group law (C04 obligations)'),
  'C08': dict(
-    tasks=(lambda tier: ['handover:limbs', 'handover:tower', 'handover:groups', 'kani:dec_quick', 'kani:bytes', 'csearch:debug', 'mirvc:specs_lib', 'mirvc:specs_groups'] if tier == 'quick' else ['handover:limbs', 'handover:tower', 'handover:groups', 'kani:dec_quick', 'kani:bytes', 'csearch:debug', 'mirvc:specs_lib', 'mirvc:specs_groups', 'kani:dec_strict']),
+    tasks=(lambda tier: ['handover:limbs', 'handover:tower', 'handover:groups', 'kani:dec_quick', 'kani:bytes', 'csearch:debug', 'csearch:release', 'mirvc:specs_lib', 'mirvc:specs_groups'] if tier == 'quick' else ['handover:limbs', 'handover:tower', 'handover:groups', 'kani:dec_quick', 'kani:bytes', 'csearch:debug', 'csearch:release', 'mirvc:specs_lib', 'mirvc:specs_groups', 'kani:dec_strict']),
     trusted_base=[A['A7'], A['A9']],
     assumptions=[A['A7'], A['A9']],
     explanation='six decoders: wrong length => Err for every length 0..=140; exact length: no panic, prefix check, coordinates < q, decoded point carries exactly the parsed coordinates with z = 1, parity selection (Kani, all byte strings); accept/reject of the pair is the validated constructor (C09 obligations); identical in both profiles (dual-profile search, Kani default checks)'),
  'C10': dict(
-    tasks=(lambda tier: ['handover:limbs', 'handover:tower', 'handover:groups', 'kani:enc', 'kani:bytes', 'csearch:debug', 'mirvc:specs_lib', 'mirvc:specs_groups'] if tier == 'quick' else ['handover:limbs', 'handover:tower', 'handover:groups', 'kani:enc', 'kani:bytes', 'csearch:debug', 'mirvc:specs_lib', 'mirvc:specs_groups']),
+    tasks=(lambda tier: ['handover:limbs', 'handover:tower', 'handover:groups', 'kani:enc', 'kani:bytes', 'csearch:debug', 'csearch:release', 'mirvc:specs_lib', 'mirvc:specs_groups'] if tier == 'quick' else ['handover:limbs', 'handover:tower', 'handover:groups', 'kani:enc', 'kani:bytes', 'csearch:debug', 'csearch:release', 'mirvc:specs_lib', 'mirvc:specs_groups']),
     trusted_base=[A['A7'], A['A9']],
     assumptions=[A['A7'], A['A9']],
     explanation='six encoders place the big-endian canonical affine coordinates at the format offsets (imaginary part first in G2), prefix 0x02/0x03 from the parity of y (real part in G2) - Kani on z = 1 inputs; to_affine on every representative gives the affine coordinates (mirvc); round trip follows from the decoder contract (C08)'),
  'C07': dict(
-    tasks=(lambda tier: ['verus:divrem', 'verus:invr', 'kani:arkff', 'kani:limbs_linear', 'kani:field_linear', 'mirvc:specs_lib', 'term:all', 'lsearch:all', 'rsearch:all', 'ground:all'] if tier == 'quick' else ['verus:divrem', 'verus:invr', 'kani:arkff', 'kani:limbs_linear', 'kani:field_linear', 'mirvc:specs_lib', 'term:all', 'lsearch:all', 'rsearch:all', 'ground:all']),
+    tasks=(lambda tier: ['handover:limbs', 'verus:divrem', 'verus:invr', 'kani:arkff', 'kani:limbs_linear', 'kani:field_linear', 'mirvc:specs_lib', 'term:all', 'lsearch:all', 'lsearch:release', 'rsearch:all', 'ground:all'] if tier == 'quick' else ['handover:limbs', 'verus:divrem', 'verus:invr', 'kani:arkff', 'kani:limbs_linear', 'kani:field_linear', 'mirvc:specs_lib', 'term:all', 'lsearch:all', 'lsearch:release', 'rsearch:all', 'ground:all']),
     trusted_base=[A['A6'], A['A7']],
     assumptions=[A['A6'], A['A7']],
     explanation='value < modulus is a postcondition of every constructor and arithmetic obligation of the limb layer (Verus), divrem returns a remainder < modulus for every 512-bit input, Fr::random terminates for every RNG stream (loop-free call chain) and returns that remainder; == / is_zero are limb equality on canonical values'),
  'C14': dict(
-    tasks=T('handover:tower', 'verus:divrem', 'kani:field_linear', 'mirvc:specs_sqrt', 'mirvc:specs_loops', 'lsearch:all', 'mirvc:specs_lib', 'csearch:debug', 'ground:all'),
+    tasks=T('handover:limbs', 'handover:tower', 'verus:divrem', 'kani:field_linear', 'mirvc:specs_sqrt', 'mirvc:specs_loops', 'lsearch:all', 'lsearch:release', 'mirvc:specs_lib', 'csearch:debug', 'csearch:release', 'ground:all'),
     trusted_base=[A['A2'], A['A7']],
     assumptions=[A['A2'], A['A7']],
     explanation='Fq::sqrt in the exponent domain under Euler\'s three cases: sqrt(0) = 0, Some(s) with s*s = x on every path for non-zero squares (sound + complete), None for non-squares; pow by the loop-invariant obligation; Fq2::sqrt: every returned root squares to x (17 paths, incl. the zero-imaginary branch), sqrt(0) = 0; completeness of Fq2::sqrt is not decided by proof (search only); decoders rely on it through csearch'),
  'C18': dict(
-    tasks=(lambda tier: ['kani:limbs_linear', 'kani:field_linear', 'kani:bytes', 'kani:dec_quick', 'kani:enc', 'kani:dispatch', 'psearch:all'] if tier == 'quick' else
-           ['kani:limbs_linear', 'kani:field_linear', 'kani:bytes', 'kani:dec_quick', 'kani:enc', 'kani:dispatch', 'kani:dec_strict', 'psearch:all']),
+    tasks=(lambda tier: ['handover:limbs', 'verus:divrem', 'verus:invr', 'kani:limbs_linear', 'kani:field_linear', 'kani:bytes', 'kani:dec_quick', 'kani:enc', 'kani:dispatch', 'psearch:all', 'pairsearch:all'] if tier == 'quick' else
+           ['handover:limbs', 'verus:divrem', 'verus:invr', 'kani:limbs_linear', 'kani:field_linear', 'kani:bytes', 'kani:dec_quick', 'kani:enc', 'kani:dispatch', 'kani:dec_strict', 'psearch:all', 'pairsearch:all']),
     trusted_base=[A['A6'], A['A7'], A['A9'], A['A11']],
     assumptions=[A['A6'], A['A7'], A['A11']],
     explanation='every Kani harness proves all default checks (overflow, shift, index, unwrap, debug_assert, unreachable) of the real MIR it reaches, with debug assertions on; the dual-profile search executes every request on the dev and the release build and compares'),
@@ -101,7 +101,7 @@ PROPS = {
     assumptions=[A['A2'], A['A5'], A['A7']],
     explanation='decidable clauses proved: e(O,Q) = e(P,O) = 1 at all three entry points for every identity representative; every pairing value is x^((q^12-1)/r) (exponent contracts) so g^r = 1 and g^(r-1)*g = 1 with the pow / mul contracts (A2); bilinearity and non-degeneracy of the specified function are pairing theory (A5)'),
  'C16': dict(
-    tasks=T('handover:limbs', 'handover:tower', 'mirvc:specs_groups', 'mirvc:specs_lib', 'mirvc:specs_loops', 'mirvc:specs_pairing', 'gsearch:all', 'csearch:debug', 'pairsearch:all', 'ground:all'),
+    tasks=T('handover:limbs', 'handover:tower', 'mirvc:specs_groups', 'mirvc:specs_lib', 'mirvc:specs_loops', 'mirvc:specs_pairing', 'gsearch:all', 'gsearch:release', 'csearch:debug', 'csearch:release', 'pairsearch:all', 'ground:all'),
     trusted_base=[A['A3'], A['A4'], A['A5'], A['A7']],
     assumptions=[A['A3'], A['A4'], A['A5'], A['A7']],
     explanation='data-abstraction argument: every operation of the alphabet has a contract requires valid_rep(args) only, ensures valid_rep(out) and pt(out) = op(pt(args)) (C04, C05, C15 obligations incl. on-curve closure); every observer is a function of pt(args) only (==, is_zero, to_affine-based encoders, pairing entry points incl. identity representatives)'),
